@@ -403,6 +403,15 @@ pub const INJECTORS: &[Inj] = &[
         },
     },
     Inj {
+        // a signature anybody can compute (fixed key material) or one made with an intermediate key of the chain
+        name: "guessable-key-signature",
+        stage: Stage::Signature,
+        apply: |b, r| {
+            b.ov.key_variant = Some(r.below(7) as u8);
+            true
+        },
+    },
+    Inj {
         name: "wrong-signature",
         stage: Stage::Signature,
         apply: |b, r| {
